@@ -8,7 +8,8 @@
 (*    kind   : "name" | "ip4" | "ip6" | "junk",                                 *)
 (*    ip     : <<a,b,c,d>> the IPv4 address (the literal, or what the name      *)
 (*             resolves to), <<>> when there is none,                           *)
-(*    v6     : "" | "loopback" | "global"       (IPv6 literals)                 *)
+(*    ip6    : <<g1..g8>> the eight 16-bit groups of an IPv6 literal, <<>>       *)
+(*             otherwise (the VALUE of the address, whatever its spelling)       *)
 (*    rsv    : "literal" | "ok" | "fail" | "unicode"  how resolution ends       *)
 (*             (fail = resolver error, unicode = the resolver rejects the name) *)
 (*    header : value of the per-request x-lunar-allow header or "absent"/"empty"*)
@@ -43,9 +44,21 @@ Internal4(o) ==
     \/ (o[1] = 172 /\ o[2] >= 16 /\ o[2] <= 31)
     \/ (o[1] = 192 /\ o[2] = 168)
 
+\* IPv6, stated over the value of the address (independent of how an implementation looks ranges up):
+\*   ::1 loopback;  fc00::/7 unique local;  fe80::/10 link local;
+\*   ::ffff:a.b.c.d IPv4-mapped: it IS the IPv4 destination a.b.c.d (dual-stack sockets connect to it as such).
+\* Nothing is demanded for the deprecated IPv4-compatible form ::a.b.c.d, NAT64, 6to4, :: (not loopback / private ranges).
+Mapped(g) == \A i \in 1..5 : g[i] = 0 /\ g[6] = 65535
+Embedded4(g) == <<g[7] \div 256, g[7] % 256, g[8] \div 256, g[8] % 256>>
+Internal6(g) ==
+    \/ g = <<0, 0, 0, 0, 0, 0, 0, 1>>
+    \/ (g[1] >= 64512 /\ g[1] <= 65023)            \* fc00::/7
+    \/ (g[1] >= 65152 /\ g[1] <= 65215)            \* fe80::/10
+    \/ (Mapped(g) /\ Internal4(Embedded4(g)))
+
 Internal(c) ==
     \/ (c.ip # <<>> /\ Internal4(c.ip))
-    \/ c.v6 = "loopback"
+    \/ (c.ip6 # <<>> /\ Internal6(c.ip6))
 
 Unresolvable(c) == c.rsv \in {"fail", "unicode"}
 
